@@ -209,7 +209,7 @@ impl UpdateTrivia for TokenReference2 { }
         Fn(EX, "format_expression", mode="stub", proved_in="expr", contract="requires wf(skel(*expression)), ensures erase(skel(r)) == erase(skel(*expression)),"),
         Fn(EX, "hang_expression_trailing_newline", mode="stub", proved_in="expr", contract="requires wf(skel(*expression)), ensures erase(skel(r)) == erase(skel(*expression)),"),
         Fn(STM, "remove_condition_parentheses", mode="stub", proved_in="stmt", contract="ensures skel(r) == strip_top(skel(expression)),"),
-        Fn(STM, "should_indent_further", mode="stub", sig_edits=[Hole("<'a>(trivia: impl Iterator<Item = &'a Token>, shape: Shape)", "(trivia: Vec<Token>, shape: Shape)", kind="proxy", why="iterator parameter")]),
+        Fn(STM, "should_indent_further", mode="stub", proved_in="collapse", sig_edits=[Hole("<'a>(trivia: impl Iterator<Item = &'a Token>, shape: Shape)", "(trivia: Vec<Token>, shape: Shape)", kind="proxy", why="iterator parameter")]),
         Fn(BLK, "format_block", mode="stub", proved_in="block", contract="ensures census(&r) == census(block),"),
         Raw("#[verifier::external_body] pub fn clone_ftt(t: &FormatTriviaType) -> (r: FormatTriviaType) ensures r == *t { unimplemented!() /* t.to_owned() */ }", module="formatters::stmt"),
         Raw("""
